@@ -981,3 +981,236 @@ func verifLemmaZeroVector(bits BitVec) {}
 //@   modifies c.analysis
 //@   mutates
 //@   ensures len(old(c.analysis)) > 0 || iszero(c.CodeHash) ==> ok == (u256val(dest) < len(c.Code) && c.Code[u256val(dest)] == 91 && !isData(c.Code, u256val(dest)))
+
+// ================================================================ C29: write protection in static frames
+
+// In a static context (evm.readOnly) every state-changing instruction is refused with
+// ErrWriteProtection before it touches the state: either by its execution function (SSTORE,
+// TSTORE, LOGn, SELFDESTRUCT, CALL with value) or by its dynamic-gas function, which the
+// interpreter evaluates first (SSTORE, CREATE, CREATE2, SELFDESTRUCT, CALL with value - every
+// fork's variant). "Touches the state" is tracked by a ghost flag set at every StateDB mutator
+// and at the frame functions.
+//@ directive noeffect uint256.Int).Bytes32
+//@ directive noeffect uint256.Int).Bytes20
+//@ directive noeffect uint256.Int).Bytes
+
+//@ func opSstore(pc *uint64, evm *EVM, scope *ScopeContext) (ret []byte, err error)
+//@   serves C29
+//@   requires scope.Stack != nil && stackInv(scope.Stack) && scope.Stack.size >= 2 && scope.Contract != nil && scope.Memory != nil
+//@   noframe
+//@   mutates
+//@   ghostvar wrote bool = false
+//@   oncall SetState SetTransientState AddLog AddBalance SubBalance SelfDestruct SelfDestruct6780 CreateAccount CreateContract SetCode SetNonce AddRefund SubRefund Call CallCode Create Create2 create AddAddressToAccessList AddSlotToAccessList: wrote = true
+//@   ensures old(evm.readOnly) ==> err == ErrWriteProtection && !wrote && scope.Stack.size == old(scope.Stack.size)
+
+//@ func opTstore(pc *uint64, evm *EVM, scope *ScopeContext) (ret []byte, err error)
+//@   serves C29
+//@   requires scope.Stack != nil && stackInv(scope.Stack) && scope.Stack.size >= 2 && scope.Contract != nil && scope.Memory != nil
+//@   noframe
+//@   mutates
+//@   ghostvar wrote bool = false
+//@   oncall SetState SetTransientState AddLog AddBalance SubBalance SelfDestruct SelfDestruct6780 CreateAccount CreateContract SetCode SetNonce AddRefund SubRefund Call CallCode Create Create2 create AddAddressToAccessList AddSlotToAccessList: wrote = true
+//@   ensures old(evm.readOnly) ==> err == ErrWriteProtection && !wrote && scope.Stack.size == old(scope.Stack.size)
+
+//@ func opSelfdestruct(pc *uint64, evm *EVM, scope *ScopeContext) (ret []byte, err error)
+//@   serves C29
+//@   requires scope.Stack != nil && stackInv(scope.Stack) && scope.Stack.size >= 1 && scope.Contract != nil && scope.Memory != nil
+//@   noframe
+//@   mutates
+//@   ghostvar wrote bool = false
+//@   oncall SetState SetTransientState AddLog AddBalance SubBalance SelfDestruct SelfDestruct6780 CreateAccount CreateContract SetCode SetNonce AddRefund SubRefund Call CallCode Create Create2 create AddAddressToAccessList AddSlotToAccessList: wrote = true
+//@   ensures old(evm.readOnly) ==> err == ErrWriteProtection && !wrote && scope.Stack.size == old(scope.Stack.size)
+
+//@ func opSelfdestruct6780(pc *uint64, evm *EVM, scope *ScopeContext) (ret []byte, err error)
+//@   serves C29
+//@   requires scope.Stack != nil && stackInv(scope.Stack) && scope.Stack.size >= 1 && scope.Contract != nil && scope.Memory != nil
+//@   noframe
+//@   mutates
+//@   ghostvar wrote bool = false
+//@   oncall SetState SetTransientState AddLog AddBalance SubBalance SelfDestruct SelfDestruct6780 CreateAccount CreateContract SetCode SetNonce AddRefund SubRefund Call CallCode Create Create2 create AddAddressToAccessList AddSlotToAccessList: wrote = true
+//@   ensures old(evm.readOnly) ==> err == ErrWriteProtection && !wrote && scope.Stack.size == old(scope.Stack.size)
+
+// the Memory invariant memoryGasCost relies on
+//@ pure func memWf(mem *Memory) bool { return len(mem.store) % 32 == 0 && mem.lastGasCost == memCost(len(mem.store) / 32) }
+
+//@ func gasSStore(evm *EVM, contract *Contract, stack *Stack, mem *Memory, memorySize uint64) (costs GasCosts, err error)
+//@   serves C29
+//@   requires stackInv(stack) && stack.size >= 2 && contract != nil && mem != nil && memWf(mem)
+//@   noframe
+//@   mutates
+//@   ghostvar wrote bool = false
+//@   oncall SetState SetTransientState AddLog AddBalance SubBalance SelfDestruct SelfDestruct6780 CreateAccount CreateContract SetCode SetNonce AddRefund SubRefund Call CallCode Create Create2 create AddAddressToAccessList AddSlotToAccessList: wrote = true
+//@   ensures old(evm.readOnly) ==> err == ErrWriteProtection && !wrote
+
+//@ func gasSStoreEIP2200(evm *EVM, contract *Contract, stack *Stack, mem *Memory, memorySize uint64) (costs GasCosts, err error)
+//@   serves C29
+//@   requires stackInv(stack) && stack.size >= 2 && contract != nil && mem != nil && memWf(mem)
+//@   noframe
+//@   mutates
+//@   ghostvar wrote bool = false
+//@   oncall SetState SetTransientState AddLog AddBalance SubBalance SelfDestruct SelfDestruct6780 CreateAccount CreateContract SetCode SetNonce AddRefund SubRefund Call CallCode Create Create2 create AddAddressToAccessList AddSlotToAccessList: wrote = true
+//@   ensures old(evm.readOnly) ==> err == ErrWriteProtection && !wrote
+
+//@ func gasSStore8037And8038(evm *EVM, contract *Contract, stack *Stack, mem *Memory, memorySize uint64) (costs GasCosts, err error)
+//@   serves C29
+//@   requires stackInv(stack) && stack.size >= 2 && contract != nil && mem != nil && memWf(mem)
+//@   requires ranged(contract.Gas) && contract.Gas.StateGas + 1099511627776 <= TMAX() && evm.Context.CostPerStateByte <= 4294967296
+//@   noframe
+//@   mutates
+//@   ghostvar wrote bool = false
+//@   oncall SetState SetTransientState AddLog AddBalance SubBalance SelfDestruct SelfDestruct6780 CreateAccount CreateContract SetCode SetNonce AddRefund SubRefund Call CallCode Create Create2 create AddAddressToAccessList AddSlotToAccessList: wrote = true
+//@   ensures old(evm.readOnly) ==> err == ErrWriteProtection && !wrote
+
+//@ func gasCreate(evm *EVM, contract *Contract, stack *Stack, mem *Memory, memorySize uint64) (costs GasCosts, err error)
+//@   serves C29
+//@   requires stackInv(stack) && stack.size >= 3 && contract != nil && mem != nil && memWf(mem)
+//@   noframe
+//@   mutates
+//@   ghostvar wrote bool = false
+//@   oncall SetState SetTransientState AddLog AddBalance SubBalance SelfDestruct SelfDestruct6780 CreateAccount CreateContract SetCode SetNonce AddRefund SubRefund Call CallCode Create Create2 create AddAddressToAccessList AddSlotToAccessList: wrote = true
+//@   ensures old(evm.readOnly) ==> err == ErrWriteProtection && !wrote
+
+//@ func gasCreate2(evm *EVM, contract *Contract, stack *Stack, mem *Memory, memorySize uint64) (costs GasCosts, err error)
+//@   serves C29
+//@   requires stackInv(stack) && stack.size >= 4 && contract != nil && mem != nil && memWf(mem)
+//@   noframe
+//@   mutates
+//@   ghostvar wrote bool = false
+//@   oncall SetState SetTransientState AddLog AddBalance SubBalance SelfDestruct SelfDestruct6780 CreateAccount CreateContract SetCode SetNonce AddRefund SubRefund Call CallCode Create Create2 create AddAddressToAccessList AddSlotToAccessList: wrote = true
+//@   ensures old(evm.readOnly) ==> err == ErrWriteProtection && !wrote
+
+//@ func gasCreateEip3860(evm *EVM, contract *Contract, stack *Stack, mem *Memory, memorySize uint64) (costs GasCosts, err error)
+//@   serves C29
+//@   requires stackInv(stack) && stack.size >= 3 && contract != nil && mem != nil && memWf(mem)
+//@   noframe
+//@   mutates
+//@   ghostvar wrote bool = false
+//@   oncall SetState SetTransientState AddLog AddBalance SubBalance SelfDestruct SelfDestruct6780 CreateAccount CreateContract SetCode SetNonce AddRefund SubRefund Call CallCode Create Create2 create AddAddressToAccessList AddSlotToAccessList: wrote = true
+//@   ensures old(evm.readOnly) ==> err == ErrWriteProtection && !wrote
+
+//@ func gasCreate2Eip3860(evm *EVM, contract *Contract, stack *Stack, mem *Memory, memorySize uint64) (costs GasCosts, err error)
+//@   serves C29
+//@   requires stackInv(stack) && stack.size >= 4 && contract != nil && mem != nil && memWf(mem)
+//@   noframe
+//@   mutates
+//@   ghostvar wrote bool = false
+//@   oncall SetState SetTransientState AddLog AddBalance SubBalance SelfDestruct SelfDestruct6780 CreateAccount CreateContract SetCode SetNonce AddRefund SubRefund Call CallCode Create Create2 create AddAddressToAccessList AddSlotToAccessList: wrote = true
+//@   ensures old(evm.readOnly) ==> err == ErrWriteProtection && !wrote
+
+//@ func gasCreateEip8037(evm *EVM, contract *Contract, stack *Stack, mem *Memory, memorySize uint64) (costs GasCosts, err error)
+//@   serves C29
+//@   requires stackInv(stack) && stack.size >= 3 && contract != nil && mem != nil && memWf(mem)
+//@   noframe
+//@   mutates
+//@   ghostvar wrote bool = false
+//@   oncall SetState SetTransientState AddLog AddBalance SubBalance SelfDestruct SelfDestruct6780 CreateAccount CreateContract SetCode SetNonce AddRefund SubRefund Call CallCode Create Create2 create AddAddressToAccessList AddSlotToAccessList: wrote = true
+//@   ensures old(evm.readOnly) ==> err == ErrWriteProtection && !wrote
+
+//@ func gasCreate2Eip8037(evm *EVM, contract *Contract, stack *Stack, mem *Memory, memorySize uint64) (costs GasCosts, err error)
+//@   serves C29
+//@   requires stackInv(stack) && stack.size >= 4 && contract != nil && mem != nil && memWf(mem)
+//@   noframe
+//@   mutates
+//@   ghostvar wrote bool = false
+//@   oncall SetState SetTransientState AddLog AddBalance SubBalance SelfDestruct SelfDestruct6780 CreateAccount CreateContract SetCode SetNonce AddRefund SubRefund Call CallCode Create Create2 create AddAddressToAccessList AddSlotToAccessList: wrote = true
+//@   ensures old(evm.readOnly) ==> err == ErrWriteProtection && !wrote
+
+//@ func gasSelfdestruct(evm *EVM, contract *Contract, stack *Stack, mem *Memory, memorySize uint64) (costs GasCosts, err error)
+//@   serves C29
+//@   requires stackInv(stack) && stack.size >= 1 && contract != nil && mem != nil && memWf(mem)
+//@   noframe
+//@   mutates
+//@   ghostvar wrote bool = false
+//@   oncall SetState SetTransientState AddLog AddBalance SubBalance SelfDestruct SelfDestruct6780 CreateAccount CreateContract SetCode SetNonce AddRefund SubRefund Call CallCode Create Create2 create AddAddressToAccessList AddSlotToAccessList: wrote = true
+//@   ensures old(evm.readOnly) ==> err == ErrWriteProtection && !wrote
+
+//@ func gasSelfdestruct8037And8038(evm *EVM, contract *Contract, stack *Stack, mem *Memory, memorySize uint64) (costs GasCosts, err error)
+//@   serves C29
+//@   requires stackInv(stack) && stack.size >= 1 && contract != nil && mem != nil && memWf(mem)
+//@   noframe
+//@   mutates
+//@   ghostvar wrote bool = false
+//@   oncall SetState SetTransientState AddLog AddBalance SubBalance SelfDestruct SelfDestruct6780 CreateAccount CreateContract SetCode SetNonce AddRefund SubRefund Call CallCode Create Create2 create AddAddressToAccessList AddSlotToAccessList: wrote = true
+//@   ensures old(evm.readOnly) ==> err == ErrWriteProtection && !wrote
+
+//@ func gasCallIntrinsic(evm *EVM, contract *Contract, stack *Stack, mem *Memory, memorySize uint64) (gas uint64, err error)
+//@   serves C29
+//@   requires stackInv(stack) && stack.size >= 7 && contract != nil && mem != nil && memWf(mem)
+//@   noframe
+//@   mutates
+//@   ghostvar wrote bool = false
+//@   oncall SetState SetTransientState AddLog AddBalance SubBalance SelfDestruct SelfDestruct6780 CreateAccount CreateContract SetCode SetNonce AddRefund SubRefund Call CallCode Create Create2 create AddAddressToAccessList AddSlotToAccessList: wrote = true
+//@   ensures old(evm.readOnly) && old(sval(stack, 2)) != 0 ==> err == ErrWriteProtection && !wrote
+
+//@ func executionGasCall8038(evm *EVM, contract *Contract, stack *Stack, mem *Memory, memorySize uint64) (gas uint64, err error)
+//@   serves C29
+//@   requires stackInv(stack) && stack.size >= 7 && contract != nil && mem != nil && memWf(mem)
+//@   noframe
+//@   mutates
+//@   ghostvar wrote bool = false
+//@   oncall SetState SetTransientState AddLog AddBalance SubBalance SelfDestruct SelfDestruct6780 CreateAccount CreateContract SetCode SetNonce AddRefund SubRefund Call CallCode Create Create2 create AddAddressToAccessList AddSlotToAccessList: wrote = true
+//@   ensures old(evm.readOnly) && old(sval(stack, 2)) != 0 ==> err == ErrWriteProtection && !wrote
+
+//@ func gasCallEIP7702(evm *EVM, contract *Contract, stack *Stack, mem *Memory, memorySize uint64) (costs GasCosts, err error)
+//@   serves C29
+//@   requires stackInv(stack) && stack.size >= 7 && contract != nil && mem != nil && memWf(mem)
+//@   noframe
+//@   mutates
+//@   ghostvar wrote bool = false
+//@   oncall SetState SetTransientState AddLog AddBalance SubBalance SelfDestruct SelfDestruct6780 CreateAccount CreateContract SetCode SetNonce AddRefund SubRefund Call CallCode Create Create2 create AddAddressToAccessList AddSlotToAccessList: wrote = true
+//@   ensures old(evm.readOnly) && old(sval(stack, 2)) != 0 ==> err == ErrWriteProtection && !wrote
+
+//@ func gasCall8038(evm *EVM, contract *Contract, stack *Stack, mem *Memory, memorySize uint64) (costs GasCosts, err error)
+//@   serves C29
+//@   requires stackInv(stack) && stack.size >= 7 && contract != nil && mem != nil && memWf(mem)
+//@   noframe
+//@   mutates
+//@   ghostvar wrote bool = false
+//@   oncall SetState SetTransientState AddLog AddBalance SubBalance SelfDestruct SelfDestruct6780 CreateAccount CreateContract SetCode SetNonce AddRefund SubRefund Call CallCode Create Create2 create AddAddressToAccessList AddSlotToAccessList: wrote = true
+//@   ensures old(evm.readOnly) && old(sval(stack, 2)) != 0 ==> err == ErrWriteProtection && !wrote
+
+// LOGn: the execution function made by makeLog(size) refuses in a static context.
+//@ func makeLog$1(pc *uint64, evm *EVM, scope *ScopeContext) (ret []byte, err error)
+//@   serves C29
+//@   requires scope.Stack != nil && stackInv(scope.Stack) && 0 <= size && size <= 4 && scope.Stack.size >= 2 + size && scope.Contract != nil && scope.Memory != nil
+//@   requires sval(scope.Stack, 1) == 0 || (sval(scope.Stack, 0) + sval(scope.Stack, 1) <= len(scope.Memory.store))
+//@   noframe
+//@   mutates
+//@   ghostvar wrote bool = false
+//@   oncall SetState SetTransientState AddLog AddBalance SubBalance SelfDestruct SelfDestruct6780 CreateAccount CreateContract SetCode SetNonce AddRefund SubRefund Call CallCode Create Create2 create AddAddressToAccessList AddSlotToAccessList: wrote = true
+//@   ensures old(evm.readOnly) ==> err == ErrWriteProtection && !wrote && scope.Stack.size == old(scope.Stack.size)
+//@   atcall GetCopy#1 assume arg3 == 0 || arg2 + arg3 <= len(scope.Memory.store)
+//@   loop 1 "i < size"
+//@     invariant 0 <= i && i <= size && stackInv(scope.Stack) && scope.Stack.size >= size - i
+//@     invariant !evm.readOnly && !old(evm.readOnly)
+
+//@ func makeGasSStoreFunc$1(evm *EVM, contract *Contract, stack *Stack, mem *Memory, memorySize uint64) (costs GasCosts, err error)
+//@   serves C29
+//@   requires stackInv(stack) && stack.size >= 2 && contract != nil && mem != nil
+//@   noframe
+//@   mutates
+//@   ghostvar wrote bool = false
+//@   oncall SetState SetTransientState AddLog AddBalance SubBalance SelfDestruct SelfDestruct6780 CreateAccount CreateContract SetCode SetNonce AddRefund SubRefund Call CallCode Create Create2 create AddAddressToAccessList AddSlotToAccessList: wrote = true
+//@   ensures old(evm.readOnly) ==> err == ErrWriteProtection && !wrote
+
+//@ func makeSelfdestructGasFn$1(evm *EVM, contract *Contract, stack *Stack, mem *Memory, memorySize uint64) (costs GasCosts, err error)
+//@   serves C29
+//@   requires stackInv(stack) && stack.size >= 1 && contract != nil && mem != nil
+//@   noframe
+//@   mutates
+//@   ghostvar wrote bool = false
+//@   oncall SetState SetTransientState AddLog AddBalance SubBalance SelfDestruct SelfDestruct6780 CreateAccount CreateContract SetCode SetNonce AddRefund SubRefund Call CallCode Create Create2 create AddAddressToAccessList AddSlotToAccessList: wrote = true
+//@   ensures old(evm.readOnly) ==> err == ErrWriteProtection && !wrote
+
+// CALL: a value transfer in a static context is refused before the callee frame is entered.
+//@ func opCall(pc *uint64, evm *EVM, scope *ScopeContext) (ret []byte, err error)
+//@   serves C29
+//@   requires scope.Stack != nil && stackInv(scope.Stack) && scope.Stack.size >= 7 && scope.Contract != nil && scope.Memory != nil
+//@   requires sval(scope.Stack, 4) % 18446744073709551616 == 0 || (sval(scope.Stack, 3) % 18446744073709551616 + sval(scope.Stack, 4) % 18446744073709551616 <= len(scope.Memory.store))
+//@   noframe
+//@   mutates
+//@   ghostvar wrote bool = false
+//@   oncall SetState SetTransientState AddLog AddBalance SubBalance SelfDestruct SelfDestruct6780 CreateAccount CreateContract SetCode SetNonce AddRefund SubRefund Call CallCode Create Create2 create AddAddressToAccessList AddSlotToAccessList: wrote = true
+//@   ensures old(evm.readOnly) && old(sval(scope.Stack, 2)) != 0 ==> err == ErrWriteProtection && !wrote
+//@   atcall Call#1 assume freshBudget(arg5)
+//@   atcall Set#1 assume arg3 == 0 || arg2 + arg3 <= len(scope.Memory.store)
